@@ -698,6 +698,55 @@ func fieldOfLoad(v ssa.Value) (owner, field string) {
 	return n.Obj().Name(), f
 }
 
+// checkInsertionErrors implements R7.16 (error discipline on the decoder's container insertions).
+func checkInsertionErrors(p *core.Prog, r *core.Result, rule string) {
+	n := 0
+	perKind := map[string]int{}
+	for _, fn := range p.ModuleFuncs() {
+		top := fn
+		for top.Parent() != nil {
+			top = top.Parent()
+		}
+		if top.Pkg == nil || top.Pkg.Pkg.Path() != pkgPickle || recvNamed(top) != "Decoder" {
+			continue
+		}
+		k := 0
+		for _, c := range core.Calls(fn) {
+			what := ""
+			switch {
+			case core.IsMethod(c, pkgStar, "Dict", "SetKey"):
+				what = "SetKey"
+			case core.IsMethod(c, pkgStar, "Set", "Insert"):
+				what = "Insert"
+			default:
+				continue
+			}
+			// a constant key cannot fail
+			keyArg := c.Common().Args[1]
+			if mi, ok := keyArg.(*ssa.MakeInterface); ok {
+				if _, isConst := mi.X.(*ssa.Const); isConst {
+					continue
+				}
+			}
+			n++
+			k++
+			used := false
+			if v := c.Value(); v != nil {
+				for _, ref := range *v.Referrers() {
+					if _, dbg := ref.(*ssa.DebugRef); !dbg {
+						used = true
+					}
+				}
+			}
+			// name the site after the opcode case it serves when the call sits in the dispatch function
+			perKind[what]++
+			construct := fmt.Sprintf("pickle.Decoder#%s-of-decoded-key-%d", what, perKind[what])
+			r.Check(used, rule, construct, p.InstrPos(c.(ssa.Instruction)), "the error of "+what+" is looked at", "the error of "+what+" on a decoded key is dropped: a key that is not hashable in its decoded form (a function, which the host unpickler rebuilds as a dict) disappears from the container without an error - FLAGS = {compile: \"-O2\"} decodes to {} for both the recorded and the current environment, so editing the value leaves the fingerprint equal")
+		}
+	}
+	r.Floor(rule, n, 2, "container insertions of decoded keys in the decoder")
+}
+
 // checkPicklerAlwaysConsulted implements R7.15.
 func checkPicklerAlwaysConsulted(p *core.Prog, r *core.Result, rule string) {
 	n := 0
